@@ -607,3 +607,37 @@ fire("c12-export-default-instead-of-state", "C12", ["C12.prefix"],
      ("x/cfevesting/genesis.go", "	genesis.VestingAccountTraceCount = k.GetVestingAccountTraceCount(ctx)\n", "	genesis.VestingAccountTraceCount = uint64(len(genesis.VestingAccountTraces))\n"))
 silent("c12-export-through-helper", "C12",
        ("x/cfevesting/genesis.go", "	genesis.VestingAccountTraces = k.GetAllVestingAccountTrace(ctx)\n", "	traces := k.GetAllVestingAccountTrace(ctx)\n	genesis.VestingAccountTraces = traces\n"))
+
+# ---------------- C16 ----------------
+VUP = "app/upgrades/v120/vestings_upgrades.go"
+AUP = "app/upgrades/v120/accounts_upgrades.go"
+V3S = "x/cfevesting/migrations/v3/store.go"
+V2S = "x/cfevesting/migrations/v2/store.go"
+fire("c16-split-extra-unit", "C16", ["C16.split"],
+     (VUP, "		InitiallyLocked: locked,\n		LockStart:       validatorsVestingPools.LockStart,", "		InitiallyLocked: locked.AddRaw(1),\n		LockStart:       validatorsVestingPools.LockStart,"))
+fire("c16-split-guard-removed", "C16", ["C16.split"],
+     (VUP, "	if validatorsVestingPools.GetCurrentlyLocked().Sub(locked).IsNegative() {", "	if locked.IsNegative() {"))
+fire("c16-precheck-removed", "C16", ["C16.precheck"],
+     (VUP, "	if validatorsVestingPools.GetCurrentlyLocked().LT(sum) {", "	if validatorsVestingPools.GetCurrentlyLocked().IsNegative() {"))
+fire("c16-sum-omits-round", "C16", ["C16.precheck"],
+     (VUP, "vcRoundUc4e.Add(earlyBirdRoundUc4e).Add(publicRoundUc4e).Add(strategicReserveShortTermRoundUc4e)", "vcRoundUc4e.Add(earlyBirdRoundUc4e).Add(publicRoundUc4e)"))
+fire("c16-types-before-precheck", "C16", ["C16.precheck"],
+     (VUP, "	if validatorsVestingPools.GetCurrentlyLocked().LT(sum) {\n		ctx.Logger().Info(\"validators vesting pool not enough locked to split\", \"owner\", poolsOwnerAddress.String())\n		return nil\n	}\n	if !modifyAndAddVestingTypes(ctx, appKeepers) {\n		return nil\n	}", "	if !modifyAndAddVestingTypes(ctx, appKeepers) {\n		return nil\n	}\n	if validatorsVestingPools.GetCurrentlyLocked().LT(sum) {\n		ctx.Logger().Info(\"validators vesting pool not enough locked to split\", \"owner\", poolsOwnerAddress.String())\n		return nil\n	}"))
+fire("c16-persist-between-splits", "C16", ["C16.atomic"],
+     (VUP, "	_, err = splitVestingPool(vestingPoolsP, validatorsVestingPools, publicRoundPoolName", "	appKeepers.GetC4eVestingKeeper().SetAccountVestingPools(ctx, *vestingPoolsP)\n	_, err = splitVestingPool(vestingPoolsP, validatorsVestingPools, publicRoundPoolName"))
+fire("c16-split-error-ignored", "C16", ["C16.atomic"],
+     (VUP, "	_, err = splitVestingPool(vestingPoolsP, validatorsVestingPools, publicRoundPoolName, publicRoundTypeName, publicRoundUc4e, 1, 6)\n	if err != nil {\n		return err\n	}", "	_, _ = splitVestingPool(vestingPoolsP, validatorsVestingPools, publicRoundPoolName, publicRoundTypeName, publicRoundUc4e, 1, 6)"))
+fire("c16-v3-drops-sent", "C16", ["C16.fieldwise"],
+     (V3S, "				Sent:            oldPool.Sent,", "				Sent:            sdk.ZeroInt(),"))
+fire("c16-v3-swaps-counters", "C16", ["C16.fieldwise"],
+     (V3S, "				Withdrawn:       oldPool.Withdrawn,\n				Sent:            oldPool.Sent,", "				Withdrawn:       oldPool.Sent,\n				Sent:            oldPool.Withdrawn,"))
+fire("c16-v2-sent-misses-counter", "C16", ["C16.fieldwise"],
+     (V2S, "			sent := oldPool.LastModificationWithdrawn.Add(oldPool.Vested).Sub(oldPool.Withdrawn).Sub(oldPool.LastModificationVested)", "			sent := oldPool.LastModificationWithdrawn.Add(oldPool.Vested).Sub(oldPool.Withdrawn)"))
+fire("c16-v3-skips-empty-pools", "C16", ["C16.fieldwise"],
+     (V3S, "			newPools = append(newPools, &newPool)", "			if !newPool.InitiallyLocked.IsZero() {\n				newPools = append(newPools, &newPool)\n			}"))
+fire("c16-accounts-original-vesting", "C16", ["C16.accounts"],
+     (AUP, "	vestingAccount.EndTime = endTime.AddDate(1, 0, 0).Unix()", "	vestingAccount.EndTime = endTime.AddDate(1, 0, 0).Unix()\n	vestingAccount.OriginalVesting = vestingAccount.OriginalVesting.Add(vestingAccount.DelegatedFree...)"))
+fire("c16-accounts-end-from-start", "C16", ["C16.accounts"],
+     (AUP, "	vestingAccount.EndTime = endTime.AddDate(1, 0, 0).Unix()", "	_ = endTime\n	vestingAccount.EndTime = startTime.AddDate(2, 0, 0).Unix()"))
+fire("c16-params-unvalidated", "C16", ["C16.params"],
+     ("x/cfedistributor/migrations/v3/params.go", "	if err := currParams.Validate(); err != nil {\n		return err\n	}\n", ""))
